@@ -3018,7 +3018,10 @@ class MNOT(M_Pattern_One):
         return self.static_tags
 
     def _leaf_asts(self) -> tp_Set[type[AST]] | None:
-        leaf_asts = _LEAF_ASTS_FUNCS.get((p := self.pat).__class__, _leaf_asts_default)(p)
+        if not isinstance(p := self.pat, type):  # only a bare type is guaranteed to match ALL nodes of its types, anything else can reject some of them (which then match this MNOT) so the complement of its types is not a valid prefilter
+            return None
+
+        leaf_asts = _LEAF_ASTS_FUNCS.get(p.__class__, _leaf_asts_default)(p)
 
         if not leaf_asts:
             if leaf_asts is None:
